@@ -21,6 +21,21 @@ def cleanup(name):
 
 def gen_cases(seed, count, root, profile="gen"):
     rc, out, err = sh([ZVSPEC, profile, str(seed), str(count), root], timeout=3600)
+    if rc != 0:
+        # the generator itself died on some seed: regenerate one by one and skip that seed (reported on stderr)
+        import sys
+        for i in range(count):
+            d = os.path.join(root, f"c{i}")
+            if os.path.exists(os.path.join(d, "ref.obs")):
+                continue
+            shutil.rmtree(d, ignore_errors=True)
+            tmp = os.path.join(root, f"_one{i}")
+            r1, _, _ = sh([ZVSPEC, profile, str(seed + i), "1", tmp], timeout=300)
+            if r1 == 0 and os.path.isdir(os.path.join(tmp, "c0")):
+                os.rename(os.path.join(tmp, "c0"), d)
+            else:
+                print(f"generator failed on seed {seed + i} ({profile}); skipped", file=sys.stderr)
+            shutil.rmtree(tmp, ignore_errors=True)
     cases = []
     for i in range(count):
         d = os.path.join(root, f"c{i}")
